@@ -148,6 +148,8 @@ FIXED = [
 def eval_case(ctx, case):
     if case["kind"] == "schema2":
         return eval_schema2(ctx, case)
+    if case["kind"] == "configs2":
+        return eval_configs2(ctx, case)
     reldir, pkgname = LAYOUTS[case["layout"]]
     iname = case["iface"]
     srcfile = case.get("srcfile", "iface.go")
@@ -262,6 +264,63 @@ SCHEMA2_EXPRS = ["file://{{.ConfigDir}}/schemas/{{.InterfaceName}}.schema.json",
                  "file://{{.ConfigDir}}/s/{{.SrcPackageName}}_{{.InterfaceName | snakecase}}.json"]
 
 
+CONFIGS2_EXPRS = [{"filename": "{{.StructName}}.go"}, {"filename": "{{.StructName}}_{{.Template | base | trimSuffix \".templ\"}}.go"},
+                  {"dir": "out/{{.Template | base | trimSuffix \".templ\"}}", "filename": "m_{{.StructName}}.go"},
+                  {"dir": "out/{{.StructName}}", "filename": "{{.InterfaceName}}.go"}]
+
+
+def eval_configs2(ctx, case):
+    """one interface with several `configs` entries that differ in structname and template: the entry-dependent variables (StructName, Template) are bound
+    per entry, the interface-dependent ones are the same for all"""
+    reldir, pkgname = LAYOUTS[case["layout"]]
+    n = case["iface"]
+    files = {"probeA.templ": probe.probe_template("A"), "probeB.templ": probe.probe_template("B"), os.path.join(reldir, "src.go"): "package %s\n\ntype %s interface{ Do(x int) error }\n" % (pkgname, n)}
+    root = core.scratch_module(ctx, files)
+    srcpath = MOD + ("/" + reldir if reldir else "")
+    tA, tB = "file://" + os.path.join(root, "probeA.templ"), "file://" + os.path.join(root, "probeB.templ")
+    entries = [{"structname": "AlphaStrict", "template": tA}, {"structname": "alphaLoose", "template": tB}, {"structname": "ThirdOne"}]
+    if case["order"] == "b-first":
+        entries = [entries[1], entries[0], entries[2]]
+    cfg = {"template": tA, "formatter": "noop", "dir": "out", "pkgname": "mocks", "require-template-schema-exists": False,
+           "packages": {srcpath: {"interfaces": {n: {"configs": entries}}}}}
+    cfg.update(case["exprs"])
+    ifacedir = os.path.join(root, reldir) if reldir else root
+    want = {}
+    for e in entries:
+        data = {"ConfigDir": root, "InterfaceDir": ifacedir, "InterfaceDirRelative": os.path.relpath(ifacedir, root), "InterfaceFile": os.path.join(ifacedir, "src.go"),
+                "InterfaceName": n, "Mock": "Mock" if n[0].isupper() else "mock", "SrcPackageName": pkgname, "SrcPackagePath": srcpath, "Template": e.get("template", tA)}
+        data["StructName"] = cfgmodel.fixpoint(e["structname"], data)
+        d = cfgmodel.fixpoint(cfg["dir"], dict(data))
+        f = cfgmodel.fixpoint(cfg["filename"], dict(data))
+        want[os.path.normpath(os.path.join(d, f))] = (data["StructName"], "B" if e.get("template") == tB else "A")
+    with open(os.path.join(root, ".mockery.yml"), "w") as fh:
+        fh.write(json.dumps(cfg))
+    before = core.snapshot(root)
+    r = core.run_mockery(ctx, root, [], timeout=600, cpu_limit=CPU_LIMIT)
+    tags = ["what=configs-entries-differ-in-structname-and-template", "layout=" + case["layout"], "order=" + case["order"]]
+    obs = {"exit": r.exit, "exprs": case["exprs"], "model": {k: list(v) for k, v in want.items()}}
+    if r.timed_out:
+        return Verdict.inconclusive("watchdog")
+    if r.panicked:
+        return Verdict.violated("mockery crashed", dict(obs, **r.brief()), tags)
+    if len(want) != len(entries):
+        return Verdict.skipped("expressions do not separate the entries")
+    if r.exit != 0:
+        return Verdict.violated("valid templated values for %d configs entries (model: %s) but mockery exited %s" % (len(entries), sorted(want), r.exit), dict(obs, **r.brief()), tags)
+    after = core.snapshot(root)
+    new = sorted(k for k, v in core.snap_diff(before, after).items() if v[1] is not None and v[1][0] == "file")
+    obs["written"] = new
+    if new != sorted(want):
+        return Verdict.violated("outputs written to %s, model says %s" % (new, sorted(want)), obs, tags)
+    for path, (sn, pid) in want.items():
+        pr = probe.parse_file(os.path.join(root, path))
+        if pr is None or len(pr["ifaces"]) != 1:
+            return Verdict.violated("output %s does not hold exactly one mock of the probe" % path, obs, tags)
+        if pr["ifaces"][0]["struct"] != sn or pr["id"] != pid:
+            return Verdict.violated("output %s holds struct %r rendered by template %s, model says %r by %s" % (path, pr["ifaces"][0]["struct"], pr["id"], sn, pid), obs, tags)
+    return Verdict.held(obs, tags=tags)
+
+
 def eval_schema2(ctx, case):
     """two interfaces of one package selected by all:true (no entries of their own); the schema location names the interface"""
     reldir, pkgname = LAYOUTS[case["layout"]]
@@ -335,6 +394,9 @@ def body(ctx, replay=None):
             cases.append({"kind": "schema2", "i": 50000 + j, "expr": SCHEMA2_EXPRS[j % len(SCHEMA2_EXPRS)], "level": ["root", "pkg"][(j // len(SCHEMA2_EXPRS)) % 2],
                           "layout": ["nested", "rootpkg", "sub", "named"][j % 4], "reject": [None, 0, 1][(j // len(SCHEMA2_EXPRS)) % 3],
                           "ifaces": [["Alpha", "Beta"], ["store", "Reader"], ["Zeta", "Eta"]][j % 3]})
+        for j in range(len(CONFIGS2_EXPRS) * (2 if ctx.tier == "quick" else 8)):
+            cases.append({"kind": "configs2", "i": 60000 + j, "exprs": CONFIGS2_EXPRS[j % len(CONFIGS2_EXPRS)], "layout": ["nested", "rootpkg", "sub", "named"][(j // 2) % 4],
+                          "order": ["a-first", "b-first"][(j // len(CONFIGS2_EXPRS)) % 2], "iface": ["Store", "reader", "URLCache"][j % 3]})
     ctx.run_cases(cases, eval_case)
     return ctx.finish()
 
